@@ -242,25 +242,37 @@ where
     R: tokio::io::AsyncRead + Unpin,
 {
     let mut interval = tokio::time::interval(tokio::time::Duration::from_millis(FLUSH_INTERVAL_MS));
+    // The line being read. When the flush timer wins the select below, the read
+    // is dropped but the bytes it already consumed have been appended here, so
+    // the buffer must outlive the flush and be continued by the next read.
+    let mut buf = Vec::new();
     loop {
         let mut bufs = Vec::new();
         loop {
-            let mut buf = Vec::new();
             tokio::select! {
                 _ = token.cancelled() => {
+                    if !buf.is_empty() {
+                        bufs.push(std::mem::take(&mut buf));
+                    }
                     process_bufs(&header, bufs, &compressor_client, &mut log_stream_client, true).await?;
                     return Err(MonorailError::TaskCancelled);
                 }
                 res = reader.read_until(b'\n', &mut buf) => {
                     match res {
                         Ok(0) => {
+                            if !buf.is_empty() {
+                                bufs.push(std::mem::take(&mut buf));
+                            }
                             process_bufs(&header, bufs, &compressor_client, &mut log_stream_client, true).await?;
                             return Ok(());
                         },
                         Ok(_n) => {
-                            bufs.push(buf);
+                            bufs.push(std::mem::take(&mut buf));
                         }
                         Err(e) => {
+                            if !buf.is_empty() {
+                                bufs.push(std::mem::take(&mut buf));
+                            }
                             process_bufs(&header, bufs, &compressor_client, &mut log_stream_client, true).await?;
                             return Err(MonorailError::from(e));
                         }
